@@ -10,6 +10,7 @@ import CfVerif.Proofs.C05Readd
 import CfVerif.Proofs.C05Sync
 import CfVerif.Proofs.C05Inter
 import CfVerif.Proofs.C05Wire
+import CfVerif.Proofs.C05Blocks
 namespace CfVerif.C05
 open CfVerif Spec
 
@@ -126,6 +127,15 @@ theorem gen_synclogger :
       "if data == self.DISCONNECT_EVENT: ;     self._queue.empty() ;     raise StopIteration", "return data"] ∧
     Gen.C05.slLog_callbackBody = ["self._queue.put((ts, data, logblock))"] ∧
     Gen.C05.slDisconnectedBody = ["self.disconnect()", "self._queue.put(self.DISCONNECT_EVENT)"] := by decide
+
+/-- `log_blocks` is written in four places only (created empty, appended by `add_config`, cleared by `Log.reset()`
+and by the reset acknowledgement), and in the acknowledgement handler the clearing is INSIDE the duplicate-answer
+guard `if not self.toc` -/
+theorem gen_reset_ack :
+    Gen.C05.resetAckShape = ["if not self.toc:", "self.log_blocks = []", "self.toc = Toc()", "toc_fetcher = TocFetcher(...)",
+      "toc_fetcher.start(...)", "endif"] ∧
+    Gen.C05.logBlocksWrites = ["__init__: self.log_blocks = []", "_new_packet_cb: self.log_blocks = []",
+      "add_config: self.log_blocks.append(logconf)", "reset: self.log_blocks = []"] := by decide
 
 /-- packet freshness: in `create()` a new `CRTPPacket()` is constructed as the first statement of every loop
 iteration and that object (`pk`) is the one handed to `send_packet`; every other sending function of log.py
@@ -399,6 +409,23 @@ theorem start_sent_on_create_ack (st : St) (cmd id status h : Nat) (ch : Conf) (
         err := none } :=
   create_ack_starts st cmd id status h ch p hfind hc hcmd hst hna hid hper hp
 
+/-! ### late and duplicated control acknowledgements never make the host forget a registered block -/
+
+/-- A control acknowledgement of ANY command (create, append, start, stop, delete, RESET, unknown), for any block
+id and status, at any point of any block's life: while the Log holds a table — i.e. except between `refresh_toc()`
+and the first reset acknowledgement of that connection — `log_blocks` is exactly what it was.  In particular the
+late answer to a re-sent RESET, or the answer to `Log.reset()` arriving after `add_config`+`start`, forgets nothing. -/
+theorem late_control_ack_keeps_blocks (st : St) (cmd id status : Nat) (ht : st.toc.isSome = true) :
+    (onSettings st cmd id status).st.blocks = st.blocks := onSettings_blocks st cmd id status ht
+
+/-- Over all histories in which the Log holds a table throughout and `Log.reset()` is not called (any packets on
+any channel incl. duplicated acknowledgements of every command, add/start/stop/delete, SyncLogger operations,
+link loss): the registered blocks stay registered, in order; `add_config` only appends.  Together with
+`flags_follow_acks` / `unpack_inverse` (which act on the block `_find_block` finds): later acknowledgements keep
+driving its flags and its data packets keep being decoded. -/
+theorem registered_blocks_stay (st : St) (ops : List Op) (hq : TocsOk (fun t => t.isSome = true) st ops)
+    (hno : ∀ op ∈ ops, op ≠ .reset) : st.blocks <+: (run st ops).1.blocks := run_blocks ops st hq hno
+
 /-! ## Clause 5: re-adding a configuration does not change its variable list (repaired `add_config`, D6) -/
 
 /-- After `add_config` has accepted a configuration, every further history that does not call
@@ -629,5 +656,10 @@ example : popsOf 0 (irun { st := exSt2 } exSched).2 = [.sample 1 [(0, .int 7)] 0
     (irun { st := exSt2 } exSched).1.started = [(0, 0)] ∧ (irun { st := exSt2 } exSched).1.prog 0 = [] := by decide
 example : Inv 1 0 ({ st := exSt2 } : ISt) := inv_initial { st := exSt2 } 0 rfl (fun _ hm => by cases hm)
   (fun h => by unfold subCount St.conf?; cases h <;> simp [exSt2, exConf2])
+
+/-- a started block, then the late answer to the re-sent RESET, a start ack and a data packet: still decoded -/
+example : ((run exSt2 [.addConfig 0, .start 0, .rx 1 [6, 1, 0], .rx 1 [5, 0, 0], .rx 1 [3, 1, 0], .rx 2 [1, 9, 0, 0, 7]]).1.blocks,
+    (run exSt2 [.addConfig 0, .start 0, .rx 1 [6, 1, 0], .rx 1 [5, 0, 0], .rx 1 [3, 1, 0], .rx 2 [1, 9, 0, 0, 7]]).2.getLast?) =
+    ([0], some (.data 0 9 [(0, .int 7)])) := by decide
 
 end CfVerif.C05
